@@ -770,3 +770,122 @@ theorem step_plain_ok {cfg : Cfg} (R : Repaired cfg) {st : St} (inv : SInv st) (
     · simp only [hh, Bool.not_false, if_true, skipR, pure_ok]; exact ⟨_, _, rfl, inv⟩
 
 end Tickit.Life
+
+namespace Tickit.Life
+open WinTree (Id Win Req Change Tree)
+
+/-! ## dropping everything (`end`) -/
+
+theorem foldlM_inv {α : Type} (f : St → α → Out St) (h : ∀ (st : St) (a : α), SInv st → ∃ st', f st a = .ok st' ∧ SInv st') :
+    ∀ (l : List α) (st : St), SInv st → ∃ st', l.foldlM f st = .ok st' ∧ SInv st'
+  | [], st, inv => ⟨st, rfl, inv⟩
+  | a :: rest, st, inv => by
+    obtain ⟨st1, h1, inv1⟩ := h st a inv
+    obtain ⟨st2, h2, inv2⟩ := foldlM_inv f h rest st1 inv1
+    exact ⟨st2, by rw [List.foldlM_cons, h1]; exact h2, inv2⟩
+
+theorem dropW_ok {cfg : Cfg} (R : Repaired cfg) (i : Nat) : ∀ (n : Nat) (st : St), SInv st →
+    ∃ st', dropAll.dropW cfg n st i = .ok st' ∧ SInv st'
+  | 0, st, inv => ⟨st, rfl, inv⟩
+  | n + 1, st, inv => by
+    unfold dropAll.dropW
+    by_cases hh : heldW st i = true
+    · obtain ⟨ww, hw⟩ := heldW_live hh
+      simp only [hh, if_true]
+      have inv1 := inv.setX_same i { getX st i with appRefs := (getX st i).appRefs - 1 } rfl
+      obtain ⟨st1, hu, inv2⟩ := unrefW_ok R inv1 (x := i) (xw := ww) (by simpa using hw)
+      simp only [hu, bind_ok]
+      exact dropW_ok R i n st1 inv2
+    · simp only [hh, Bool.false_eq_true, if_false, pure_ok]; exact ⟨st, rfl, inv⟩
+
+theorem dropP_ok (k : Nat) : ∀ (n : Nat) (st : St), SInv st → ∃ st', dropAll.dropP n st k = .ok st' ∧ SInv st'
+  | 0, st, inv => ⟨st, rfl, inv⟩
+  | n + 1, st, inv => by
+    unfold dropAll.dropP
+    by_cases hh : heldP st k = true
+    · simp only [hh, if_true]
+      obtain ⟨st1, hu, inv1⟩ := punref_ok inv hh
+      simp only [hu, bind_ok]
+      exact dropP_ok k n st1 inv1
+    · simp only [hh, Bool.false_eq_true, if_false, pure_ok]; exact ⟨st, rfl, inv⟩
+
+theorem dropS_ok (k : Nat) : ∀ (n : Nat) (st : St), SInv st → ∃ st', dropAll.dropS n st k = .ok st' ∧ SInv st'
+  | 0, st, inv => ⟨st, rfl, inv⟩
+  | n + 1, st, inv => by
+    unfold dropAll.dropS
+    by_cases hh : heldS st k = true
+    · simp only [hh, if_true]
+      unfold heldS at hh
+      cases hs : st.strs[k]? with
+      | none => simp [hs] at hh
+      | some s =>
+        simp only [hs, Bool.and_eq_true, Bool.not_eq_true'] at hh
+        have hlt : k < st.strs.size := by
+          by_cases hlt : k < st.strs.size
+          · exact hlt
+          · have := Array.getElem?_eq_none (xs := st.strs) (Nat.le_of_not_lt hlt)
+            rw [hs] at this; cases this
+        unfold strUnref
+        simp only [Option.getD_some, Array.getElem?_setIfInBounds, if_true, hlt, hh.1, Bool.false_eq_true, if_false]
+        split
+        · simp only [pure_ok, bind_ok]; exact dropS_ok k n _ ((inv.set_strs _).set_strs _)
+        · simp only [pure_ok, bind_ok]; exact dropS_ok k n _ ((inv.set_strs _).set_strs _)
+    · simp only [hh, Bool.false_eq_true, if_false, pure_ok]; exact ⟨st, rfl, inv⟩
+
+theorem dropB_ok (k : Nat) : ∀ (n : Nat) (st : St), SInv st → ∃ st', dropAll.dropB n st k = .ok st' ∧ SInv st'
+  | 0, st, inv => ⟨st, rfl, inv⟩
+  | n + 1, st, inv => by
+    unfold dropAll.dropB
+    by_cases hh : heldB st k = true
+    · obtain ⟨b, hb, hfb⟩ := heldB_spec hh
+      have hlt : k < st.rbs.size := by
+        by_cases hlt : k < st.rbs.size
+        · exact hlt
+        · have := Array.getElem?_eq_none (xs := st.rbs) (Nat.le_of_not_lt hlt)
+          rw [hb] at this; cases this
+      have hr := inv.rb_rc k b hb hfb
+      simp only [hh, if_true, hb, Option.getD_some]
+      unfold rbUnref
+      simp only [Array.getElem?_setIfInBounds, if_true, hlt, hfb, Bool.false_eq_true, if_false]
+      have hge : ¬ b.refcount < 1 := by omega
+      simp only [hge, if_false, pure_ok, bind_ok]
+      rw [Array.setIfInBounds_setIfInBounds]
+      refine dropB_ok k n _ (inv.set_rb k _ ?_)
+      intro hf'
+      by_cases hz : b.refcount - 1 = 0
+      · simp [hz] at hf'
+      · simp only [hz, if_false]
+        show 1 ≤ b.refcount - 1
+        omega
+    · simp only [hh, Bool.false_eq_true, if_false, pure_ok]; exact ⟨st, rfl, inv⟩
+
+theorem dropT_ok : ∀ (n : Nat) (st : St), SInv st → ∃ st', dropAll.dropT n st = .ok st' ∧ SInv st'
+  | 0, st, inv => ⟨st, rfl, inv⟩
+  | n + 1, st, inv => by
+    unfold dropAll.dropT
+    by_cases hh : heldT st = true
+    · simp only [hh, if_true]
+      obtain ⟨st1, hu, inv1⟩ := tunref_ok inv hh
+      simp only [hu, bind_ok]
+      exact dropT_ok n st1 inv1
+    · simp only [hh, Bool.false_eq_true, if_false, pure_ok]; exact ⟨st, rfl, inv⟩
+
+/-- Dropping every reference the application holds never fails. -/
+theorem dropAll_ok {cfg : Cfg} (R : Repaired cfg) {st : St} (inv : SInv st) :
+    ∃ st', dropAll cfg st = .ok st' ∧ SInv st' := by
+  unfold dropAll
+  obtain ⟨s1, h1, i1⟩ := foldlM_inv (fun st i => dropAll.dropW cfg ((getX st i).appRefs + 1) st i)
+    (fun st i inv => dropW_ok R i _ st inv) (List.range st.tree.wins.size).reverse st inv
+  simp only [h1, bind_ok]
+  obtain ⟨s2, h2, i2⟩ := foldlM_inv (fun st k => dropAll.dropP ((st.pens[k]?.getD {}).appRefs + 1) st k)
+    (fun st k inv => dropP_ok k _ st inv) (List.range s1.pens.size).reverse s1 i1
+  simp only [h2, bind_ok]
+  obtain ⟨s3, h3, i3⟩ := foldlM_inv (fun st k => dropAll.dropS ((st.strs[k]?.getD {}).appRefs + 1) st k)
+    (fun st k inv => dropS_ok k _ st inv) (List.range s2.strs.size).reverse s2 i2
+  simp only [h3, bind_ok]
+  obtain ⟨s4, h4, i4⟩ := foldlM_inv (fun st k => dropAll.dropB ((st.rbs[k]?.getD {}).appRefs + 1) st k)
+    (fun st k inv => dropB_ok k _ st inv) (List.range s3.rbs.size).reverse s3 i3
+  simp only [h4, bind_ok]
+  exact dropT_ok _ s4 i4
+
+end Tickit.Life
